@@ -574,6 +574,10 @@ class Enum:
             other = r if (l[0] == CONST and l[1] is None) else l
             if other[0] in (BIT, STREAM, SUB, TUPLE, SELF) or other == OPQ_R or (other[0] == OPAQUE and other[1] == 'fresh'):
                 return (CONST, isinstance(op, ast.IsNot))
+        if isinstance(op, (ast.In, ast.NotIn)) and l[0] == CONST and r[0] == CFG:
+            # `0 in self.index_to_member`: membership of a literal in a table of the object says something about the *contents* of the table, which the
+            # enumeration of configuration atoms cannot keep consistent with other atoms about the same table (its length, ...): a free choice, like a read
+            return (FORM, ('nondet',))
         if is_cfgish(l) and is_cfgish(r) or (l[0] == TUPLE and vtext(l)) or (r[0] == TUPLE and vtext(r)):
             if vtext(l) is not None and vtext(r) is not None:
                 f = cmp_formula(op, l if l[0] != TUPLE else (CFG, vtext(l)), r if r[0] != TUPLE else (CFG, vtext(r)))
